@@ -94,15 +94,25 @@ mutual
 def walk : Trie → Json → WSt → Option WSt
   | t, v, st =>
     if st.2 = 0 then some st                      -- `if *remain == 0 { return Ok(()) }`
-    else
-      (match kindOf t.kids, v with
-       | .empty, _ => some st                     -- skip_one
-       | .index, .arr (x :: xs) =>
-         (walkElems t.kids (x :: xs) 0 0 st).bind fun r =>
-           if r.2 < t.kids.length then none else some r.1      -- GetIndexOutOfArray
-       | .index, _ => none                        -- not an array / GetInEmptyArray
-       | .key, .obj (m :: ms) => walkMembers t.kids (m :: ms) st
-       | .key, _ => none).map fun st' => fillSlots v t.order st'
+    else (walkKids t.kids v st).map fun st' => fillSlots v t.order st'
+/-- the `match &node.children` -/
+def walkKids : List (Step × Trie) → Json → WSt → Option WSt
+  | kids, .arr (x :: xs), st =>
+    (match kindOf kids with
+     | .empty => some st                          -- skip_one
+     | .index =>
+       (walkElems kids (x :: xs) 0 0 st).bind fun r =>
+         if r.2 < kids.length then none else some r.1            -- GetIndexOutOfArray
+     | .key => none)                              -- not an object
+  | kids, .obj (m :: ms), st =>
+    (match kindOf kids with
+     | .empty => some st
+     | .key => walkMembers kids (m :: ms) st
+     | .index => none)                            -- not an array
+  | kids, _, st =>
+    (match kindOf kids with
+     | .empty => some st
+     | _ => none)                                 -- scalar / GetInEmptyArray / GetInEmptyObject
 def walkElems (kids : List (Step × Trie)) : List Json → Nat → Nat → WSt → Option (WSt × Nat)
   | [], _, visited, st => some (st, visited)
   | x :: rest, index, visited, st =>
